@@ -2265,7 +2265,10 @@ func TestVerifC13(t *testing.T) {
 					ms = []c13Mut{c13NewMut("null", p, false, nil), c13NewMut("wrong-type", p, false, c13WrongType(rng, cur))}
 				}
 			}
-			for _, m := range ms {
+			for mi, m := range ms {
+				if !thorough && len(p) == 2 && mi == 1 && from%2 == 1 {
+					continue // quick: second-level wrong-type at every second version
+				}
 				if c, ok := c13BuildCase(s, append(append([]c13Mut{}, pre...), m), false); ok {
 					// The auxiliary deletion is not the mutation under test.
 					c.Muts = []c13Mut{m}
@@ -2388,7 +2391,7 @@ func TestVerifC13(t *testing.T) {
 	rep.EventN("systematic_cases", nA2)
 
 	// Phase B: random mutations.
-	nRandom := verifkit.Pick(3000, 100000)
+	nRandom := verifkit.Pick(2500, 100000)
 	hashBudget := verifkit.Pick(40, 600)
 	for i := 0; i < nRandom; i++ {
 		s := structured[rng.Intn(len(structured))]
@@ -2502,6 +2505,10 @@ func TestVerifC13(t *testing.T) {
 		results[i] = nil
 		cases[i] = nil
 	}
+
+	// Working directory forms and credentials (c13_env_test.go).
+	c13WorkingDirSection(t, rep, seeds)
+	c13CredentialsSection(t, rep)
 
 	// The run must have observed every kind of event it decides on.
 	need := map[string]int{
